@@ -64,13 +64,28 @@ type SolverProc struct {
 	mu     sync.Mutex
 	tmoMs  int
 	binary string
+	// incremental mode: one push level per path-condition entry
+	stack []string
+	axAt  [][]string // axAt[l]: assertions made while the stack was l deep
 }
 
 func StartSolver(timeoutMs int) (*SolverProc, error) {
-	cmd := exec.Command("z3-new", "-in", "-smt2")
+	// z3 4.8.12 runs the incremental push/pop sessions the engine produces about
+	// eight times faster than 5.1.0; whatever it does not refute is raced on all
+	// three solvers afterwards (RaceFile), so its weaker spots only cost time.
+	bin := os.Getenv("GOVC_SOLVER")
+	if bin == "" {
+		bin = "z3"
+	}
+	cmd := exec.Command(bin, "-in", "-smt2")
 	in, err := cmd.StdinPipe()
 	if err != nil {
 		return nil, err
+	}
+	if lf := os.Getenv("GOVC_SOLVERLOG"); lf != "" {
+		if f, err := os.Create(lf); err == nil {
+			in = teeCloser{in, f}
+		}
 	}
 	outp, err := cmd.StdoutPipe()
 	if err != nil {
@@ -80,8 +95,8 @@ func StartSolver(timeoutMs int) (*SolverProc, error) {
 	if err := cmd.Start(); err != nil {
 		return nil, err
 	}
-	sp := &SolverProc{cmd: cmd, in: in, out: bufio.NewReaderSize(outp, 1<<16), tmoMs: timeoutMs, binary: "z3-new"}
-	fmt.Fprintf(in, "(set-option :timeout %d)\n", timeoutMs)
+	sp := &SolverProc{cmd: cmd, in: in, out: bufio.NewReaderSize(outp, 1<<16), tmoMs: timeoutMs, binary: bin}
+	fmt.Fprintf(in, "(set-option :timeout %d)\n(set-option :global-declarations true)\n", timeoutMs)
 	io.WriteString(in, prelude)
 	return sp, nil
 }
@@ -108,11 +123,70 @@ func (sp *SolverProc) Send(cmds []string) {
 		return
 	}
 	var b strings.Builder
+	d := len(sp.stack)
+	for len(sp.axAt) <= d {
+		sp.axAt = append(sp.axAt, nil)
+	}
 	for _, c := range cmds {
 		b.WriteString(c)
 		b.WriteByte('\n')
+		if d > 0 && strings.HasPrefix(c, "(assert") {
+			// popped together with level d: re-asserted then (see popTo)
+			sp.axAt[d] = append(sp.axAt[d], c)
+		}
 	}
 	io.WriteString(sp.in, b.String())
+}
+
+// popTo pops the solver stack to depth l and re-asserts the (globally valid)
+// axioms that had been asserted inside the popped levels.
+func (sp *SolverProc) popTo(l int, b *strings.Builder) {
+	d := len(sp.stack)
+	if d <= l {
+		return
+	}
+	fmt.Fprintf(b, "(pop %d)\n", d-l)
+	var moved []string
+	for i := l + 1; i <= d && i < len(sp.axAt); i++ {
+		moved = append(moved, sp.axAt[i]...)
+		sp.axAt[i] = nil
+	}
+	sp.stack = sp.stack[:l]
+	for _, c := range moved {
+		b.WriteString(c)
+		b.WriteByte('\n')
+	}
+	if l > 0 {
+		sp.axAt[l] = append(sp.axAt[l], moved...)
+	}
+}
+
+// CheckInc asks whether pc ∧ extra is satisfiable, reusing the pushed prefix
+// that pc shares with the previous query.
+func (sp *SolverProc) CheckInc(pc []string, extra []string) string {
+	if sp.dead {
+		return "unknown"
+	}
+	var b strings.Builder
+	n := 0
+	for n < len(pc) && n < len(sp.stack) && pc[n] == sp.stack[n] {
+		n++
+	}
+	sp.popTo(n, &b)
+	for _, e := range pc[n:] {
+		b.WriteString("(push 1)\n(assert ")
+		b.WriteString(e)
+		b.WriteString(")\n")
+		sp.stack = append(sp.stack, e)
+	}
+	for len(sp.axAt) <= len(sp.stack) {
+		sp.axAt = append(sp.axAt, nil)
+	}
+	if _, err := io.WriteString(sp.in, b.String()); err != nil {
+		sp.dead = true
+		return "unknown"
+	}
+	return sp.Check(extra)
 }
 
 var queryCounter int64
@@ -285,4 +359,21 @@ func writeQueryFile(dir, name string, decls []string, asserts []string, getValue
 		}
 	}
 	return p, os.WriteFile(p, []byte(b.String()), 0o644)
+}
+
+type teeCloser struct {
+	io.WriteCloser
+	log *os.File
+}
+
+func (t teeCloser) Write(p []byte) (int, error) {
+	t.log.Write(p)
+	return t.WriteCloser.Write(p)
+}
+
+func interactiveSolverName() string {
+	if b := os.Getenv("GOVC_SOLVER"); b != "" {
+		return b
+	}
+	return "z3"
 }
